@@ -28,17 +28,18 @@ Example D3_user_macro_named_Sm : no_panic (run_doc "xhtml" 0 ".#de Sm
 Proof. vm_compute. reflexivity. Qed.
 
 (* proved for every document of a sub-language, every world and every positive nesting fuel (text lines, .Bm/.Em/.Sm,
-   argument-less .P, display blocks .Bd/.Ed nested to any depth; XHTML fragment mode): the model never records a panic -
-   neither the scope stack's "no current block" nor running out of fuel.  Proofs/FragB.v. *)
-Require FragB.
-Theorem C01_blocks_no_panic_partial : forall fuel wd main bs, Forall FragB.in_frag bs ->
+   .P with or without title, display blocks .Bd/.Ed nested to any depth, headers .Ch/.Pt/.Sh/.Ss; XHTML fragment mode): the model
+   never records a panic - neither the scope stack's "no current block", nor BeginHeader's index out of range (the passes
+   agree), nor running out of fuel.  Proofs/FragB.v, Proofs/FragH.v. *)
+Require FragH.
+Theorem C01_blocks_no_panic_partial : forall fuel wd main bs, Forall FragH.in_fragH bs ->
   panicked (snd (compile (S fuel) (R "xhtml") 0 wd main bs)) = None.
-Proof. intros fuel wd main bs H. exact (proj1 (FragB.C02_blocks_balanced fuel wd main bs H)). Qed.
+Proof. intros fuel wd main bs H. exact (proj1 (FragH.C02_headers_balanced fuel wd main bs H)). Qed.
 Theorem C01_source_no_panic_partial : forall wd main src bs, assoc main (w_fs wd) = Some src -> parse src = (bs, None) ->
-  Forall FragB.in_frag bs -> no_panic (compile_source (R "xhtml") 0 wd main) = true.
+  Forall FragH.in_fragH bs -> no_panic (compile_source (R "xhtml") 0 wd main) = true.
 Proof. intros wd main src bs Hs Hp H. unfold no_panic, compile_source, compile_source_c. rewrite Hs, Hp.
   change (nesting_fuel wd) with (S (63 + List.length (w_fs wd))).
-  rewrite (proj1 (FragB.C02_blocks_balanced _ wd main bs H)). reflexivity. Qed.
+  rewrite (proj1 (FragH.C02_headers_balanced _ wd main bs H)). reflexivity. Qed.
 Print Assumptions C01_source_no_panic_partial.
 
 (* tie of the dispatcher to the source: the model dispatches exactly the names of frundis.DefaultExporterMacros
